@@ -400,6 +400,9 @@ func e2eBehaviour(c *e2eCtx) error {
 		cfg.DataType = []string{"bool", "count"}[(i/4)%2]
 		cfg.Race = raceOn
 		cfg.Precision = pick(r, []int{1, 2, 3})
+		if i%2 == 1 { // the worker pools as well: coverage must be attributed to the right component under every schedule
+			cfg.Threads = 4
+		}
 		if r.Intn(3) == 0 {
 			cfg.Alias, cfg.PkgName, cfg.PkgPath = "cov", "covpkg", "internal/cov"
 		}
